@@ -71,14 +71,27 @@ def run(tier):
                          case={"cmd": v["cmd"], "viol": {k: v[k] for k in v if k not in ("spec", "tables", "cmd")}},
                          files={"s.l": v["spec"], "s_tables.h": v["tables"]})
         ck.sample({"scenario": job["tag"], "allocation_faults": sm.get("alloc_faults"), "read_faults": sm.get("read_faults"), "as_documented": sm.get("fault_ok")})
-    ck.cov.update(evaluations=tot["fault_runs"], distinct_nontrivial=tot["fault_ok"], allocation_faults=tot["alloc_faults"], read_faults=tot["read_faults"],
+    # C++ input path: the K-th underflow() of the streambuf throws, the istream goes bad(): every K x chunk size x scanner variant
+    from .. import cxxstream
+    cxx_cases = 0
+    for j, res in pmap(cxxstream.run_variant, [(v, ["faults"]) for v in cxxstream.VARIANTS], check=ck):
+        if "worker_exception" in res:
+            ck.broken.append("C++ stream worker failed: %s" % res["worker_exception"])
+            continue
+        cxx_cases += cxxstream.judge(ck, res, "C14:cxx-stream")
+    tot["fault_runs"] += cxx_cases
+    tot["read_faults"] += cxx_cases
+    ck.cov["cxx_stream_faults"] = cxx_cases
+    ck.guard(cxx_cases > 1000, "C++ stream faults hardly exercised: %d" % cxx_cases)
+    ck.cov.update(evaluations=tot["fault_runs"], distinct_nontrivial=tot["fault_ok"] + cxx_cases, allocation_faults=tot["alloc_faults"], read_faults=tot["read_faults"],
                   scenarios=len(jobs),
                   rule="scenario = API x input path x rule set (plain / REJECT) x input x buffer size; a clean run counts N allocation requests and R "
                        "read requests; then one run per k <= N with request k failing, and one run per j <= R x {EINTR, EINTR twice, read error, "
-                       "EINTR after a partial fread}; distinct_nontrivial counts the fault runs whose outcome was the documented one (error return / "
+                       "EINTR after a partial fread}; C++: stock LexerInput over a streambuf whose K-th underflow() throws, every K x 5 chunk sizes x "
+                       "{interactive, batch, -Cf, -Cr}: the scanner must stop through LexerError; distinct_nontrivial counts the fault runs whose outcome was the documented one (error return / "
                        "fatal-error hook with a message / retry with unchanged tokens)")
     ck.assumptions += ["a user-supplied yyread has no errno protocol, so read faults are injected only on the scanner's own fread / getc / read(2) paths",
                        "memory still held when the fatal-error hook is reached is not judged (the program is expected to exit)",
-                       "C++ construction and yytables_fload are covered by C15"]
+                       "yytables_fload is covered by C15; C++ allocation failures (operator new throws) are outside the scanner's control"]
     ck.guard(tot["alloc_faults"] > 200 and tot["read_faults"] > 200, "too few faults injected: %s" % tot)
     return ck.finish()
